@@ -6,6 +6,7 @@ is the concatenation of the lines' originals.  Every edit is one of three primit
 effect on the line list is proved here; the commands are compositions of them.
 -/
 import KlogV.Lemmas.Edits
+import KlogV.Lemmas.CommandEdits
 import KlogV.Props.C08
 namespace KlogV.C03
 
@@ -59,7 +60,7 @@ theorem start_open_range_spec (r r' : Reconciler) (t : Time) (fmt : Reformat Boo
     ∃ value : Bytes, r'.lines = insertLines r.style r.lines r.lastLine (toMultilineEntryTexts value summary) ∧ r'.record = r.record :=
   KlogV.startOpenRange_spec r r' t fmt summary h
 
-/- TODO-repair: being re-proved after the model followed fix D18 (no second separator after a dangling blank)
+-- repaired after the model followed fix D18 (no second separator after a dangling blank)
 /-- `stop`: the line with the open range has its placeholder replaced, the entry's last summary
 line gets text appended at its end, further summary lines are one splice directly after it; every
 other line is untouched. -/
@@ -89,8 +90,6 @@ theorem close_open_range_spec (r r' : Reconciler) (e : Time) (fmt : Reformat Boo
                   | _ => mid) :=
   KlogV.closeOpenRange_spec r r' e fmt add h
 
--/
-
 /-- `pause --extend` / every tick of `pause`: at most one line is rewritten (its duration token);
 nothing is added or removed. -/
 theorem extend_pause_spec (r r' : Reconciler) (inc : Int) (h : r.extendPause inc = .ok r') :
@@ -119,6 +118,44 @@ theorem new_record_spec (date : Date) (fmt : Reformat Bool) (ad : AdditionalData
 theorem result_is_lines (r : Reconciler) (text : Bytes) (rec : Record) (h : r.makeResult = .ok (text, rec)) :
     text = joinLines r.lines :=
   KlogV.makeResult_text r text rec h
+
+/-! ### Whole commands -/
+
+/-- `new` arises from `old` by `i` splices (`insert_spec`) and `m` single-line text rewrites (`modify_spec`). -/
+abbrev Edits (i m : Nat) (old new : List Line) : Prop := KlogV.Edits i m old new
+
+/-- upper bounds (splices, rewrites) per command: track (2,0), create (1,0), start (2,0), stop (1,2),
+switch (2,2), pause — its first step — (1,1) -/
+abbrev editBound (c : Cmd) : Nat × Nat := KlogV.editBound c
+
+/-- Every successful command writes the lines of the old file (all of them: C08) changed by at most
+that many splices and single-line rewrites — track/start: the entry line(s), and the new record if
+the date has none; create: the record; stop: the placeholder, the end of the entry's last summary
+line, further summary lines; switch: both; pause: the pause entry, or with `--extend` its duration
+token.  Every other line is written back byte for byte (`insert_spec`, `modify_spec`). -/
+theorem command_edits (u : UTab) (cfg : Config) (now : Instant) (c : Cmd) (file file' : Bytes)
+    (hp : ∀ s n e t, c = .pause s n e t → t = [])
+    (h : runCmd u cfg now c file = .ok file') :
+    ∃ (i m : Nat) (lines' : List Line), file' = joinLines lines' ∧
+      Edits i m (blocksOf file).flatten lines' ∧ i ≤ (editBound c).1 ∧ m ≤ (editBound c).2 :=
+  KlogV.command_edits u cfg now c file file' hp h
+
+/-- Every tick of the `pause` loop rewrites at most one line (the pause's duration token). -/
+theorem pause_tick_edits (today yesterday : Date) (inc : Int) (file file' : Bytes)
+    (h : (reconcileFile file
+        (fun rs bos => firstCreator [reconcilerAtRecord today rs bos, reconcilerAtRecord yesterday rs bos])
+        [fun r => r.extendPause (-inc)]).1 = .ok file') :
+    ∃ (m : Nat) (lines' : List Line), file' = joinLines lines' ∧ Edits 0 m (blocksOf file).flatten lines' ∧ m ≤ 1 :=
+  KlogV.pause_tick_edits today yesterday inc file file' h
+
+/-- Splices alone lose, reorder and alter nothing: the texts of the old lines are a subsequence of
+the texts of the new lines. -/
+theorem edits_texts_sublist (i : Nat) (old new : List Line) (h : Edits i 0 old new) :
+    (old.map (·.text)).Sublist (new.map (·.text)) :=
+  KlogV.edits_texts_sublist i old new h
+
+theorem edits_length (i m : Nat) (old new : List Line) (h : Edits i m old new) : old.length ≤ new.length :=
+  KlogV.edits_length i m old new h
 
 /-- A command that changes nothing writes back the identical file (for a text with at least one
 significant line): the lines of all blocks concatenate to the input (C08). -/
